@@ -204,3 +204,15 @@ def seed_from_env() -> int:
         return int(os.environ.get("VERIF_SEED", "0"))
     except ValueError:
         return 0
+
+
+def absorb(rep: "Report", sub: "Report", mapping: dict[str, str]):
+    """Copy the obligations a shared rule function recorded in `sub` into `rep` under this property's rule ids."""
+    for o in sub.obligations:
+        new = mapping.get(o.rule)
+        if new is None:
+            continue
+        o.key = o.key.replace(o.rule + "@", new + "@", 1)
+        o.rule = new
+        rep.obligations.append(o)
+        rep.rules[new]["instances"] += 1
